@@ -545,7 +545,8 @@ class ArgumentParser(ParserDeprecations, ActionsContainer, ArgumentLinking, argp
                     cfg[action.dest] = subcommand = self._check_value_key(action, env_val, action.dest, cfg)
                     # only what the environment says: the subcommand's defaults enter below every other source (handle_subcommands)
                     pcfg = action._name_parser_map[env_val].parse_env(env=env, defaults=False, _skip_validation=True)
-                    for k, v in vars(pcfg).items():
+                    # leaf by leaf: a group with one variable must not replace what the environment config set in that group
+                    for k, v in pcfg.items():
                         cfg[subcommand + "." + k] = v
         for action in actions:
             env_var = get_env_var(self, action)
